@@ -161,11 +161,11 @@ q, t = std_stages('disp', 2500, 100000, fuzz_runs=150000)
 q['stages'].append(dict(engine='rc', harness='disp', variant='gxx', procs=8, cases=1500, timeout=900))
 t['stages'].append(dict(engine='rc', harness='disp', variant='gxx', procs=16, cases=50000, timeout=3600))
 prop('C04', 'exploration',
-     'rapidcheck-generated EventDispatcher histories over 12 configurations (keys: int incl. INT_MIN/MAX, enum class, std::string incl. "", embedded NUL and non-SSO, user ordered key, user hashed key with '
-     'colliding hash; prototypes by value / by const reference / event excluded / getEvent policy (also user getEvent policies taking their arguments by value, in the exclude and the include form); ArgumentPassing auto/include/exclude; unordered_map, std::map, user map) with dispatches whose arguments '
+     'rapidcheck-generated EventDispatcher histories over 14 configurations (keys: int incl. INT_MIN/MAX, enum class, std::string incl. "", embedded NUL and non-SSO, user ordered key, user hashed key with '
+     'colliding hash; prototypes by value / by const reference / event excluded / getEvent policy (also user getEvent policies taking their arguments by value, in the exclude and the include form, and one that routes to another event than its first argument); a comparable user Callback type with the hasListener / removeListener / hasAnyListener(dispatcher, event, callback) helpers of eventutil.h and several equal callbacks per event; ArgumentPassing auto/include/exclude; unordered_map, std::map, user map) with dispatches whose arguments '
      'are lvalues or temporaries and listeners taking arguments by value (stealing them) or by reference and counting their own calls (the registered object must be the one that runs); oracle = per-key list model + argument summaries + caller lvalues unchanged + listener-internal state; '
      'non-trivial = >=2 keys with listeners, a dispatch with a temporary key whose first listener takes its arguments by value, >=2 listeners on that key',
-     COMMON_ASSUME + ['key/prototype universe is the 12-row configuration table', 'insert/remove through a handle of another event of the same dispatcher are not generated (documented UB)'],
+     COMMON_ASSUME + ['key/prototype universe is the 14-row configuration table', 'insert/remove through a handle of another event of the same dispatcher are not generated (documented UB)'],
      q, t)
 
 SCHED_ASSUME = COMMON_ASSUME + [
@@ -213,7 +213,7 @@ prop('C11', 'exploration',
 q, t = std_stages('remover', 8000, 150000)
 prop('C15', 'exploration',
      'rapidcheck-generated histories over a pool of 3 ScopedRemovers and 2 targets (CallbackList, EventDispatcher, EventQueue, or an EventDispatcher keyed by a user type): add through a remover (append/prepend/insert), add directly, remove through a remover '
-     '(own, foreign, direct, stale handles), remove directly, reset, setCallbackList/setDispatcher, move construction, move assignment into empty and non-empty removers, swap, destruction, invocation; '
+     '(own, foreign, direct, stale handles), remove directly, reset, setCallbackList/setDispatcher, move construction, move assignment into empty and non-empty removers and from itself, swap, destruction, invocation; '
      'oracle = ownership model (listener -> responsible remover | none | limbo after a move assignment) compared with the enumerated content after every op and after all removers are gone; '
      'non-trivial = a move assignment between two removers that both own listeners',
      COMMON_ASSUME + ['what the destination of a move assignment was responsible for may be detached at once or stay attached until the last remover involved is gone; the model adopts what it observes, monotonically',
@@ -223,7 +223,7 @@ prop('C15', 'exploration',
 q, t = std_stages('remover', 10000, 150000)
 prop('C16', 'exploration',
      'rapidcheck-generated trigger histories on CallbackList, EventDispatcher, EventQueue (direct and queued dispatch), HeterCallbackList and HeterEventDispatcher with listeners added through counterRemover '
-     '(trigger counts INT_MIN,-5,-1,0,1,2,3,7,INT_MAX and random) and conditionalRemover (condition = bit sequence, with-argument, no-argument and callable-both-ways forms; the last must be called with the arguments of the trigger), plain listeners, removal from outside, and listener scripts '
+     '(trigger counts INT_MIN,-5,-1,0,1,2,3,7,INT_MAX and random) and conditionalRemover (condition = bit sequence, with-argument, no-argument, callable-both-ways and int-returning forms; the last must be called with the arguments of the trigger), plain listeners, removal from outside, and listener scripts '
      'that re-trigger the same event re-entrantly; oracle = per wrapped listener trigger model on top of the nested-invocation list model; non-trivial = (count <=0 or >=2 with a re-entrant trigger, or a condition '
      'turning true on a nested trigger) with other listeners present',
      COMMON_ASSUME, q, t)
@@ -242,7 +242,7 @@ prop('C14', 'exploration',
 
 q, t = std_stages('anydata', 12000, 300000, enum=True)
 prop('C17', 'exploration',
-     'type table P<N,kind>: N in {1,2,4,7,8,15,16,17,23,24,25,31,32,33,63,64,65,100,256} x kind in {trivial bytes, ledgered copy+move, ledgered move-only, shared_ptr holder} x AnyData capacities {1 (=16), 24, 32, 64}, '
+     'type table P<N,kind>: N in {1,2,4,7,8,15,16,17,23,24,25,31,32,33,63,64,65,100,256} x kind in {trivial bytes, ledgered copy+move, ledgered move-only, shared_ptr holder, trivial copy with user-provided move} x AnyData capacities {1 (=16), 24, 32, 64}, '
      'so every capacity has N = M-1, M, M+1. Bounded-exhaustive: every (N, kind, capacity, construction form) with a fixed move/queue script (912 cases); random: generated chains of moves, reads and EventQueue round trips with '
      'slots recycled between payloads of very different size. Oracle: value equality, stable address, conversions, isType true exactly for the stored type, <=1 move and no copy of the held object per AnyData move (the counted copyable type has a potentially-throwing move constructor, the shared_ptr holder a noexcept one), no copy when a temporary is enqueued, move-only never copied, use_count unchanged by a move, ledger exactly-once, ASan/UBSan; '
      'non-trivial = size within +-1 of the capacity or beyond it, a non-trivial kind, and >=2 moves or a queue round trip',
@@ -251,7 +251,7 @@ prop('C17', 'exploration',
 
 q, t = std_stages('anyid', 8000, 100000, enum=True)
 prop('C18', 'exploration',
-     'AnyId<Digester, Storage> for Digester in {std::hash, hash mod 4 (forced collisions), constant} x Storage in {EmptyAnyStorage, opaque storage (neither == nor <), tagged value storage (both)}; value pool of 26 values over '
+     'AnyId<Digester, Storage> for Digester in {std::hash, hash mod 4 (forced collisions), constant} x Storage in {EmptyAnyStorage, opaque storage (neither == nor <), tagged value storage (both)}, plus std::hash with a comparable storage that forgets the type of the value (equal stored values with different digests); value pool of 26 values over '
      'int/long/unsigned/char/bool/enum/std::string/user struct chosen to collide (int 5, long 5, unsigned 5, enum 5; equal strings; "") and to spread digests over the whole size_t range (0, 6e18, 12e18, -1). Bounded-exhaustive: all 26^2 pairs and 26^3 triples per configuration '
      '(equivalence, strict weak order, incomparability classes == equality classes, equal ids hash equally, collisions stay distinct with value storage / ids equal iff digests equal without) and dispatch through std::map and '
      'std::unordered_map dispatchers against a linear-search model; random: generated law and dispatch cases; non-trivial = the case contains a digest collision between different values',
@@ -278,7 +278,7 @@ q['stages'].append(tsan_stage(600))
 t['stages'].append(tsan_stage(20000))
 prop('C03', 'exploration',
      'generated thread programs (0-4 initial callbacks, 2-5 threads x <=4 calls: append, prepend, insert(before h), remove(h), ownsHandle(h), empty, forEach, invoke) on CallbackList (scheduler mutex and the library SpinLock) and on '
-     'EventDispatcher keyed by a user type whose comparison/hash/copy are scheduling points (std::map and std::unordered_map), executed under the harness-owned scheduler (random walk, PCT, sticky; schedule bytes are part of the case), plus every schedule with <=1 (quick) / <=2 (thorough) preemptions of 77 fixed two- and three-thread programs on each subject (bounded-exhaustive stage); '
+     'EventDispatcher keyed by a user type whose comparison/hash/copy are scheduling points (std::map and std::unordered_map), and on HeterCallbackList (first use of a prototype by two threads), executed under the harness-owned scheduler (random walk, PCT, sticky; schedule bytes are part of the case), plus every schedule with <=1 (quick) / <=2 (thorough) preemptions of 77 fixed two- and three-thread programs on each subject (bounded-exhaustive stage); '
      'oracle = Wing-Gong linearizability search over the add/remove/query calls (program order + real-time order of non-overlapping calls, every return value, ending in the observed final order), traversal rules (no callback twice, '
      'everything that stayed is visited, only callbacks that could be in the list, survivors in list order), deep probe after join (ownsHandle of every handle, remove survivors one by one re-enumerating), ledger, mutual exclusion of the hook-declared critical sections over the one list / the one listener map; '
      'second stage = append/remove/dispatch on real threads (std::mutex and the library SpinLock, whose acquire/release orders ThreadSanitizer models; OS schedule) under ThreadSanitizer with the documented unlocked reads suppressed; '
@@ -289,7 +289,7 @@ prop('C03', 'exploration',
 
 q, t = multi_stages([('cbl_f', 200, 3000), ('queue_f', 200, 2000), ('remover_f', 200, 3000), ('heter_f', 200, 3000)])
 prop('C09', 'fault_enumeration',
-     'generated histories (the C02/C10 program classes) executed once fault-free while counting the fault points of every top-level operation (user code: callback entry, callback copy, payload copy, copy / move / assignment of a user event-key type in the remover harness; memory allocation through a '
+     'generated histories (the C02/C10 program classes) executed once fault-free while counting the fault points of every top-level operation (user code: callback entry, callback copy, payload copy and move, heterogeneous enqueue, adds at the counter wrap, copy / move / assignment of a user event-key type in the remover harness; memory allocation through a '
      'replaced operator new), then re-executed from scratch once per (operation i, position k) for every k up to the count (<=48, <=8 operations and <=120 faulted executions per program), the k-th fault point throwing; '
      'a second fault at a later operation in a third of the executions. Oracle: exactly the injected exception reaches the caller (terminate = failure), strong guarantee for listener management / assignment / copies '
      '(model snapshot restored and compared by enumeration at once), invocations leave what the callbacks did, the history continues in lock-step with the model, ledger empty and LeakSanitizer clean at the end; '
@@ -305,7 +305,7 @@ q = dict(stages=[dict(engine='replay', harness='config'), dict(engine='rc', harn
 t = dict(stages=[dict(engine='replay', harness='config'), dict(engine='rc', harness='config', procs=16, cases=40000, timeout=3600),
                  dict(engine='config-matrix', harness='config')])
 prop('C20', 'exploration',
-     'rapidcheck-generated flat programs (listener changes, dispatch and enqueue with lvalue and temporary keys/arguments, process/processOne/processIf/takeEvent/peekEvent/emptyQueue/waitFor(0), copy- and move-construction of the '
+     'rapidcheck-generated flat programs (listener changes, dispatch and enqueue with lvalue and temporary keys/arguments, process/processOne/processIf/processUntil/takeEvent/peekEvent/emptyQueue/waitFor(0), copy- and move-construction of the '
      'queue over pre-filled placement storage followed by an immediate emptyQueue/waitFor, listeners that append a further listener each time they run) interpreted for 8 policy instantiations (Threading Multiple/SpinLock/Single x Map auto/std::map/unordered_map/user map x Callback '
      'std::function/custom functor x ArgumentPassing auto/include/exclude x key int/std::string) and compared with a built-in reference model; the first programs of the run are dumped and re-run by stand-alone builds of the '
      'same C++11-clean source with g++ and clang++, -O0 and -O2, -std=c++11..20 (quick: 4 builds, thorough: 16) with two storage fill patterns; non-trivial = a temporary key/argument or an object constructed over non-zero storage and queried before any write',
